@@ -99,12 +99,19 @@ PROPS = {
                         "scheme choice (BG4Predictor heuristic, floats) is an oracle: any choice round-trips"],
     },
     "C09": {
-        "modules": ["XetProps.C09Search"],
+        "modules": ["XetProps.C09Search", "XetProps.C09"],
         "theorems": [
             "Xet.InterpSearch.C09_search_constants_ok", "Xet.InterpSearch.C09_search_bounds_production",
             "Xet.InterpSearch.C09_search_checked_ops", "Xet.InterpSearch.C09_search_safe", "Xet.InterpSearch.C09_search_arrangement",
             "Xet.InterpSearch.C09_search", "Xet.InterpSearch.C09_search_sound", "Xet.InterpSearch.C09_search_list",
             "Xet.InterpSearch.C09_search_production",
+            "Xet.Shard.C09_scan", "Xet.Shard.C09_scan_offsets", "Xet.Shard.C09_scan_tables", "Xet.Shard.C09_stable_table_legal",
+            "Xet.Shard.C09_totals", "Xet.Shard.C09_totals_fit", "Xet.Shard.C09_size", "Xet.Shard.C09_accounting_invariant",
+            "Xet.Shard.C09_size_built", "Xet.Shard.C09_file_lookup", "Xet.Shard.C09_file_lookup_present",
+            "Xet.Shard.C09_file_lookup_absent", "Xet.Shard.C09_file_lookup_sound", "Xet.Shard.C09_file_lookup_any_order",
+            "Xet.Shard.C09_file_table", "Xet.Shard.C09_cas_table", "Xet.Shard.C09_lookup_sorted", "Xet.Shard.C09_sortByKey",
+            "Xet.Shard.C09_hash_order", "Xet.Shard.C09_built_sorted", "Xet.Shard.C09_file_record_roundtrip",
+            "Xet.Shard.C09_cas_record_roundtrip", "Xet.Shard.C09_bookend", "Xet.Shard.C09_footer_roundtrip",
         ],
         "suites": ["shard", "interp_search"],
         "level_text": "Interpolation search (search_on_sorted_u64s): theorem for every sorted table, every probe function (so float rounding is "
@@ -112,7 +119,13 @@ PROPS = {
                       "capacity match, else exactly capacity of them; every read index lies in the table, no u64 under/overflow, termination. "
                       "Shard file format: the byte-exact Lean model of serialize_from and of all readers is tied to the Rust by differential "
                       "runs (serialized bytes, every file lookup incl. absent and prefix-colliding hashes, scans, totals, size accounting); "
-                      "the round-trip theorems over the format model are being added (see evidence obligations).",
+                      "round-trip theorems for every well-formed in-memory content (decidable Mem.WF), any size and key distribution and every chunk table "
+                      "the unstable sort may produce: the seekable readers applied to serialize(m) return exactly the footer, the file records, "
+                      "the xorb records and the chunk table; get_file_reconstruction_info(h) returns the stored record / not-found for EVERY hash "
+                      "when fewer than 8 stored files share its truncated prefix (for every order the search may deliver matches) and the collision "
+                      "error otherwise; lookup tables are key-sorted; footer totals and serialized length equal the in-memory accounting (invariant "
+                      "preserved by add_cas_block/add_file_reconstruction_info incl. replacements). Not a theorem: agreement of the streaming and "
+                      "minimal readers with the seekable one.",
         "design_ref": "DESIGN.md section 4, C09",
         "technique": "Lean 4 proof (loop invariant, all probe oracles) + byte-exact differential correspondence of the shard format",
         "rule": "shard: contents 0..250 xorbs / 0..400 files, key distributions uniform/clustered/extremes/shared truncated prefix (1..9 equal "
@@ -200,6 +213,89 @@ PROPS = {
                         "fetch ranges the real single-flight group mixes the ranges: finding F14",
                         "tokio scheduling = arbitrary permutation of the positioned writes; dev-profile panics are explicit model outcomes",
                         "well-formedness excludes 'no byte range but offset > 0' (sequential writer then returns more than it wrote, theorem C17_seq_reported_edge)"],
+    },
+    "C05": {
+        "modules": ["XetProps.C05"],
+        "theorems": [
+            "Xet.Shard.C05_mem_loop", "Xet.Shard.C05_mem_zero_iff", "Xet.Shard.C05_lookup_invariant", "Xet.Shard.C05_mem",
+            "Xet.Shard.C05_truthful_index", "Xet.Shard.C05_direct", "Xet.Shard.C05_disk", "Xet.Shard.C05_first_n",
+            "Xet.Shard.C05_disk_wf", "Xet.Shard.C05_disk_wf_candidates",
+        ],
+        "suites": ["shard"],
+        "level_text": "In-memory index: for every shard reachable from the empty one by add_cas_block / add_file_reconstruction_info / union / "
+                      "difference the lookup-map invariant holds and every answer (n, fse) has 1 <= n <= |q|, fse.end = fse.start + n <= |X.chunks|, "
+                      "X.chunks[start+i].hash = q[i], fse.bytes = sum of those lengths. On-disk readers: for EVERY byte string, footer, HMAC key and "
+                      "EVERY candidate list (so truncated-prefix collisions and arbitrary chunk-table contents are covered by construction) an answer "
+                      "of chunk_hash_dedup_query(_direct) names n records carrying keyed(q[0..n)) in order with bytes = their summed lengths; on "
+                      "serialize(m) of a well-formed m the named block is a block of m. The shard-manager layer (collections, keyed shards) is "
+                      "covered by differential runs only in this revision.",
+        "design_ref": "DESIGN.md section 4, C05",
+        "technique": "Lean 4 proof (loop invariants over the code-shaped query loops; arbitrary bytes / candidates) + differential correspondence",
+        "rule": "shard: 12-40 queries per generated shard: present runs, absent, partially matching, running past the xorb end, length 1, starting "
+                "at the last chunk, same truncated prefix with different hash; candidates as returned by the real table search; distinct by "
+                "shard content hash; non-trivial = shard has >= 2 records",
+        "assumptions": ["chunk_hash_dedup_query_direct with a (cas index, offset) hint past the block end is outside the claim (rows of a legal chunk table never are)",
+                        "the in-memory answer names the block the lookup map holds (may outlive a replaced cas_content entry, as in the Rust)"],
+    },
+    "C14": {
+        "modules": ["XetProps.C14"],
+        "theorems": [
+            "Xet.Dedup.C14_file_conservation", "Xet.Dedup.C14_file_conservation_prefix", "Xet.Dedup.C14_pointer_size", "Xet.Dedup.C14_record_size",
+            "Xet.Dedup.C14_session_sum", "Xet.Dedup.C14_session_sum_totals", "Xet.Dedup.C14_session_conserved", "Xet.Dedup.localQuery_legal",
+            "Xet.Dedup.processLoop_inv", "Xet.Dedup.answersLegal_iff", "Xet.Dedup.lensFunctional_or_collision",
+        ],
+        "suites": ["deduper", "session"],
+        "level_text": "Theorems for every hash-primitive record, limits, EVERY defrag decision procedure, every partition of a file's chunk list into "
+                      "process_chunks calls and every oracle with legal answers: total bytes/chunks = what was fed, new + deduplicated = total, "
+                      "withheld <= new, pointer size = total bytes = file_size of the record (preserved by merge_in / finalize); session metrics = sum "
+                      "over files for every sequence of completions. The upload-byte clause (xorb_bytes_uploaded = sum of put returns, shard bytes = "
+                      "bytes handed to upload_shard, for the completion orders tokio produces) is checked on real sessions by the suite `session` "
+                      "(partial: tokio task timing is not modelled).",
+        "design_ref": "DESIGN.md section 4, C01..C11",
+        "technique": "Lean 4 proof (invariant over the history, induction on loop fuel) + differential correspondence (scripted FileDeduper and real sessions)",
+        "rule": "deduper: 70 [900] files per limit configuration (6 [12] configurations), chunk sequences fresh/mixed/fragmented (1 old : 1-3 fresh)/"
+                "self-repeating/long old runs, truthful-but-adversarial answers (any duplicate, shorter runs, misses), global-dedup second pass; "
+                "session: 5 [11] configurations x 2 [12] stores x 2-4 sessions x 1-5 files, sequential and interleaved cleaners, re-uploads; "
+                "distinct by hash of the op line; non-trivial = multi-call file / non-empty session",
+        "assumptions": ["answers legal = count/bytes part of truthfulness (C05)",
+                        "LensFunctionalChunks: equal chunk hash => equal length within one file (its failure is a data-hash collision)",
+                        "upload completion orders are those tokio produced in the runs, not all orders"],
+    },
+    "C15": {
+        "modules": ["XetProps.C15"],
+        "theorems": [
+            "Xet.Dedup.C15_mid_file_xorbs", "Xet.Dedup.C15_every_call_boundary", "Xet.Dedup.C15_file_to_aggregator", "Xet.Dedup.C15_zero_exactly_listed",
+            "Xet.Dedup.C15_merge_preserves", "Xet.Dedup.C15_no_unresolved", "Xet.Dedup.C15_aggregate_xorbs", "Xet.Dedup.C15_production_constants",
+            "Xet.Dedup.C15_field_widths", "Xet.Dedup.C15_cas_entries_fit",
+        ],
+        "suites": ["deduper", "session"],
+        "level_text": "Same quantifiers as C14 plus maxXorbChunks >= 1 and every chunk 1..maxChunk <= maxXorbBytes bytes: every xorb cut mid-file and every "
+                      "xorb the session aggregator hands to the store is non-empty, within both limits, made of chunks within the chunk bound; new_data "
+                      "and current_session_data are within limits at every call boundary; zero-hash segments are exactly the listed ones (kept by "
+                      "merge_in's shift) and all patched by finalize, so no emitted record has a zero xorb reference; with the regenerated production "
+                      "constants all lengths fit the u24/u32 fields (decide). Real sessions: every put within limits and accepted by validate_cas_object.",
+        "design_ref": "DESIGN.md section 4, C01..C11",
+        "technique": "Lean 4 proof (invariant over histories) + differential correspondence",
+        "rule": "as C14; limit configurations include max chunks 1, 2, 3 and byte limits just above one chunk",
+        "assumptions": ["as C14", "stored answers never name the zero hash and no cut xorb hashes to zero (only for the no-unresolved clause)"],
+    },
+    "C03": {
+        "modules": ["XetProps.C03"],
+        "theorems": [
+            "Xet.Dedup.C03_pointer_hash", "Xet.Dedup.C03_pointer_function", "Xet.Dedup.C03_independent", "Xet.Dedup.C03_bytes_function",
+            "Xet.Dedup.C03_same_bytes_same_pointer", "Xet.Dedup.C03_salt", "Xet.Dedup.C03_salt_file", "Xet.Dedup.C03_salt_empty_file",
+        ],
+        "suites": ["session", "deduper", "hashes"],
+        "level_text": "The pointer hash is file_node_hash(chunk (hash,len) list, salt) for ANY oracle answers; the pointer size is the number of bytes for "
+                      "every legal history; composed with C04: both are functions of the bytes and the salt only, for every partition of the bytes into "
+                      "add_data calls, every grouping into process_chunks calls, every oracle, limits and defrag procedure; different salts => collision "
+                      "of the keyed primitive on distinct (key,msg) pairs (never injectivity). Real sessions: the model recomputes every pointer from the "
+                      "bytes alone (Lean chunker + Lean BLAKE3) and it equals the pointer the session produced, whatever was deduplicated. Excluded "
+                      "point (known finding): the empty file hashes to zero under every salt.",
+        "design_ref": "DESIGN.md section 4, C01..C11",
+        "technique": "Lean 4 proof (composition of the C04 and dedup-history theorems) + differential correspondence",
+        "rule": "as C14 (session suite: pointers recomputed from bytes for every file incl. interleaved cleaners and later sessions); hashes: salts zero/ones/random",
+        "assumptions": ["data-hash collision appears as a disjunct of C03_bytes_function", "concurrency beyond interleaved add_data calls on one thread is not exercised"],
     },
 }
 
